@@ -49,12 +49,29 @@ Print Assumptions C15_never_corrupts.
    list, the service invoke list, the core, and the exits in exactly the reverse order; every
    installed handler once per time it was added, in order of addition *)
 Theorem C15_trace_onion : forall pool, guard pool -> pool_plain pool -> forall ops r,
+  ctx_mark r = None ->   (* the call's context is live *)
   let s := snd (run pool ops sys_init) in
   let t := snd (spec_run pool ops ssys_init) in
   call pool r s = (s, onion_trace layers (fun L => spec_list L t) r (ROk (r ++ [99%N])),
                    ROk (r ++ [99%N])).
 Proof. exact trace_onion. Qed.
 Print Assumptions C15_trace_onion.
+
+(* (guarded) a call whose context is ALREADY done (cancelled, deadline passed) on entry: every
+   installed client handler is still entered and left exactly once, in order; nothing in the
+   managers looks at the context; the transport answers ctx.Err() and that error travels back
+   through all of them (so a handler could still short-circuit or repair such a call:
+   C15_short_circuit_trace and C15_trace_onion_layer hold whatever the context) *)
+Theorem C15_done_context_onion : forall pool, guard pool -> pool_plain pool -> forall ops r m,
+  ctx_mark r = Some m ->
+  let s := snd (run pool ops sys_init) in
+  let t := snd (spec_run pool ops ssys_init) in
+  call pool r s =
+  (s, enters LCI (spec_list LCI t) r ++
+      (enters LCO (spec_list LCO t) r ++ [] ++ exits LCO (rev (spec_list LCO t)) (RErr m)) ++
+      exits LCI (rev (spec_list LCI t)) (RErr m), RErr m).
+Proof. exact trace_done. Qed.
+Print Assumptions C15_done_context_onion.
 
 (* one layer, any core, results and errors alike travel back through every handler in
    reverse order *)
@@ -108,6 +125,26 @@ Theorem C15_snapshot : forall sched cs cs',
   crun cs sched = Some cs' -> coherent (shared cs') /\ Forall thread_ok (threads cs').
 Proof. exact crun_ok. Qed.
 Print Assumptions C15_snapshot.
+
+(* any number of mutator and caller threads, every schedule: the installed closure of every
+   manager is the chain of that manager's CURRENT list (a Use/Unuse is one critical section:
+   list update and rebuild together), so once all mutators have returned a call runs exactly
+   the onion of the final lists *)
+Theorem C15_concurrent_mutators_coherent : forall sched cs cs',
+  coherent (shared cs) -> crun cs sched = Some cs' -> coherent (shared cs').
+Proof. exact crun_coherent. Qed.
+Print Assumptions C15_concurrent_mutators_coherent.
+
+(* several mutators on one manager run as one merged sequence of critical sections; a mutator
+   whose handlers have code pointers nobody else uses finds them installed exactly as if it had
+   run alone, whatever the interleaving (what the multi-mutator check computes the expected
+   final chain from) *)
+Theorem C15_disjoint_mutators_independent : forall own ops p, coherent_pm p ->
+  Forall (fun o => is_mine own o = true \/ is_other own o = true) ops ->
+  exists p', pm_run ops p = Some p' /\ coherent_pm p' /\
+    owned own (handlers p') = hrun (filter (is_mine own) ops) (owned own (handlers p)).
+Proof. exact pm_run_disjoint. Qed.
+Print Assumptions C15_disjoint_mutators_independent.
 
 (* what a call has read is never changed by later steps of anybody (closures are
    immutable once built); a call that has returned stays as it is *)
@@ -273,6 +310,32 @@ Example mixed_history :
            (RErr 3)].
 Proof.
   split; [split; cbn; repeat constructor; cbn; intuition discriminate | vm_compute; reflexivity].
+Qed.
+
+(* done contexts: a call issued with a cancelled context, and a handler (service side) that
+   cancels the context before calling next: everything still runs *)
+Example done_context_history :
+  fst (run [VInvokeFn (hB 10 1 BPass []); VIOFn (hB 20 2 BAlter []); VInvokeFn (hB 11 3 BCancel [])]
+           [OM (MUse NClient [0; 1]%nat); OM (MUse NService [2; 0]%nat); OCall [9001%N; 5%N]; OCall [5%N]]
+           sys_init) =
+  [OutStatus SOk; OutStatus SOk;
+   OutCall [EEnter LCI 1 [9001%N; 5%N]; EEnter LCO 2 [9001%N; 5%N];
+            EExit LCO 2 (RErr 9001); EExit LCI 1 (RErr 9001)] (RErr 9001);
+   OutCall [EEnter LCI 1 [5%N]; EEnter LCO 2 [5%N]; EEnter LSI 3 [5%N; 2%N]; EEnter LSI 1 [9001%N; 5%N; 2%N];
+            ECore [9001%N; 5%N; 2%N];
+            EExit LSI 1 (ROk [5%N; 2%N; 99%N]); EExit LSI 3 (ROk [5%N; 2%N; 99%N]);
+            EExit LCO 2 (ROk [5%N; 2%N; 99%N; 102%N]); EExit LCI 1 (ROk [5%N; 2%N; 99%N; 102%N])]
+           (ROk [5%N; 2%N; 99%N; 102%N])].
+Proof. vm_compute. reflexivity. Qed.
+
+Example disjoint_mutators_nonvacuous :
+  let a := hB 1 1 BPass [] in let b := hB 2 2 BPass [] in
+  let ops := [PUse [a]; PUse [b; b]; PUnuse [a]; PUse [a]; PUnuse [b]; PUse [a]] in
+  Forall (fun o => is_mine (N.eqb 1) o = true \/ is_other (N.eqb 1) o = true) ops /\
+  hrun ops [] = [a; a] /\ hrun (filter (is_mine (N.eqb 1)) ops) [] = [a; a].
+Proof.
+  cbn. split; [|split; reflexivity].
+  repeat (apply Forall_cons; [cbn; auto|]). apply Forall_nil.
 Qed.
 
 Example classification_example :
